@@ -8,7 +8,7 @@ import (
 
 // TestMatrix sweeps the finite core of the quantifier completely (no sampling): every token kind/state x declared type
 // in the subject and in the actor role, every subject x actor x requested type x storage default x token format for
-// requests that may succeed, and every client-auth method x credential presentation - each on both routers. The cases
+// requests that may succeed, and every client registration (application type x auth method x grant registered or not) x credential presentation - each on both routers. The cases
 // go through the same run / oracle as the generated ones.
 
 func allTokens() []TokSpec {
@@ -29,6 +29,8 @@ func allTokens() []TokSpec {
 var (
 	allDeclared  = []string{"access", "refresh", "id", "jwt", "saml2", "short", ""}
 	allRequested = []string{"", "access", "refresh", "id", "jwt", "saml2", "short"}
+	allCreds     = []string{"right", "basic_right", "post_right", "wrong_secret", "wrong_secret_other", "no_cred", "id_only", "basic_empty", "post_empty",
+		"own_assertion", "bad_assertion", "unknown_client", "malformed_basic"}
 )
 
 func baseCase(router string) Case {
@@ -235,16 +237,26 @@ func matrix() []Case {
 			}
 		}
 	}
-	// C: client authentication
+	// C: client authentication: every registration (application type x auth method x registered for the grant or not) x
+	// every credential presentation; and with a storage veto on top
 	for _, router := range routers {
-		for _, method := range []string{"client_secret_basic", "client_secret_post", "none", "private_key_jwt"} {
-			for _, cred := range append([]string{"right"}, badCreds...) {
-				for _, veto := range []bool{false, true} {
-					c := baseCase(router)
-					c.Break = "sweep-auth"
-					c.ClientAuth, c.Cred, c.Requested = method, cred, "access"
-					c.Policy.Veto = veto
-					out = append(out, c)
+		for _, app := range append([]string{""}, appTypes...) {
+			for _, method := range []string{"client_secret_basic", "client_secret_post", "none", "private_key_jwt"} {
+				for _, cred := range allCreds {
+					for variant := 0; variant < 3; variant++ { // plain / storage veto / client not registered for the grant
+						if app != "" && variant == 1 {
+							continue
+						}
+						n++
+						c := baseCase(router)
+						c.Break = "sweep-auth"
+						c.ClientAuth, c.AppType, c.Cred, c.Requested = method, app, cred, "access"
+						c.Policy.Veto, c.NoGrant = variant == 1, variant == 2
+						if app != "" && n%2 == 0 {
+							c.Subject = TokSpec{Kind: "refresh", State: "live", Owner: "self", User: "u1", Declared: "refresh"}
+						}
+						out = append(out, c)
+					}
 				}
 			}
 		}
@@ -265,5 +277,5 @@ func TestMatrix(t *testing.T) {
 		}
 	}
 	rec.SetExtra("sweep_cases", len(cases))
-	rec.SetExtra("sweep_exhaustive_over", "token kind/state x declared type x role x router; subject x actor x requested x default x format x router; auth method x credential x router; subject kind x same string as actor x declared actor type (x verifier role) x router; act policy x actor x requested type x router; token kind x role x (host of issue x host served first | key change x earlier rotation x token minted before / after / presented again) x router")
+	rec.SetExtra("sweep_exhaustive_over", "token kind/state x declared type x role x router; subject x actor x requested x default x format x router; application type x auth method x grant registration x credential presentation x router; subject kind x same string as actor x declared actor type (x verifier role) x router; act policy x actor x requested type x router; token kind x role x (host of issue x host served first | key change x earlier rotation x token minted before / after / presented again) x router")
 }
